@@ -120,7 +120,7 @@ def _effective(chosen_name, kind, C):
     return DEFAULT_BEH[kind]
 
 
-def ob_policy(pattern, which, fixed_first, fixed_tmpl=None, budget_s=300):
+def ob_policy(pattern, which, fixed_first, fixed_tmpl=None, shard=None, budget_s=300):
     """the call returns an SM simfile obeying the policy, or raises InvalidPropertyException naming the first offending
     property (NotImplementedError for warps); nothing else; source and templates unmodified"""
     import z3
@@ -132,6 +132,8 @@ def ob_policy(pattern, which, fixed_first, fixed_tmpl=None, budget_s=300):
     cht_keys = [(k, kind) for kind in KINDS for k in cht_tab.get(kind, [])]
 
     def run():
+        if shard is not None:   # (property order reversed?, two charts?): this obligation covers one quarter of the case splits
+            symx.CTL.assume(z3.Int("rev") == shard[0], (z3.Int("ncharts") == 2) == bool(shard[1]))
         src = SSC.SSCSimfile(string="")
         cond = {}
         plain = [("TITLE", "t!"), ("ARTIST", "a!"), ("ZZFRESH", "z!"), ("BPMS", "0.000=120.000"), ("STOPS", "")]
@@ -429,8 +431,11 @@ def obligations(tier):
     b = 400 if tier == "quick" else 3000
     for first in range(5):
       for tm in range(3):
-        obs.append(dict(name=f"policy[all present, SSC_VERSION behaviour={BEH[first]}, templates={tm}]", func="ob_policy", args=("all", 0, first, tm), budget_s=b,
-                        bounds="every SSC-only simfile/chart property present with symbolic default-ness; behaviours of the other four kinds chosen lazily over 4 values + unspecified; WARPS 3 classes; 0..2 charts; templates on/off"))
+        if tier == "quick" and tm != 0 and first != 4:
+            continue   # quick: every SSC_VERSION behaviour without templates, and the three template variants with the behaviour unspecified
+        for sh in ((0, 0), (0, 1), (1, 0), (1, 1)):
+            obs.append(dict(name=f"policy[all present, SSC_VERSION behaviour={BEH[first]}, templates={tm}, reversed={sh[0]}, two charts={sh[1]}]", func="ob_policy", args=("all", 0, first, tm, sh), budget_s=b,
+                            bounds="every SSC-only simfile/chart property present with symbolic default-ness; behaviours of the other four kinds chosen lazily over 4 values + unspecified; WARPS 3 classes; 0..2 charts; templates on/off (split by property order and chart count)"))
     obs.append(dict(name="policy[none present]", func="ob_policy", args=("none", 0, None), budget_s=b, bounds="no SSC-only property besides VERSION/WARPS"))
     for w in (range(nsim + ncht) if tier != "quick" else list(range(0, nsim + ncht, 3))):
         obs.append(dict(name=f"policy[only SSC-only property #{w} present]", func="ob_policy", args=("one", w, None), budget_s=b, bounds="exactly one SSC-only property present (index into the regenerated tables)"))
